@@ -486,3 +486,81 @@ def check_C19(sc, v, tier, seed, replay):
               "(all-0xFF, random, truncated PDUs; Per!PerDecode must reject them); TLC judges exit status, banner and session reports; "
               "distinct = (run, uplink message)")
     v.assumptions = ["AMF family A1-A4 of Amf.tla", "a run that does not exit within 30 s of the last event counts as a hang"]
+
+
+# ------------------------------------------------------------------------------------------------
+# C11 / C17: identities and conversion helpers
+# ------------------------------------------------------------------------------------------------
+def _convert_run(sc, v, tier, seed, which):
+    sc.build(["rec-convert", "rec-build"])
+    schema = os.path.join(sc.work, "schema.json")
+    sc.run("rec-build", ["-tier", "quick", "-out", os.path.join(sc.work, "b.ndjson"), "-schema", schema])
+    trace = os.path.join(sc.work, "convert.ndjson")
+    sc.run("rec-convert", ["-seed", seed, "-tier", tier, "-out", trace, "-which", which], timeout=1800)
+    results, rejects, lines = vlib.validate_trace(sc, "TraceConvert", trace, constants={"SchemaPath": schema}, timeout=2400)
+    v.add_tlc(results)
+    v.traces = len(results)
+    evs = [json.loads(l) for l in lines]
+    return evs, rejects
+
+
+def check_C11(sc, v, tier, seed, replay):
+    evs, rejects = _convert_run(sc, v, tier, seed, "ident")
+    n = 0
+    for e in evs:
+        if e["ev"] == "PlmnRow":
+            for i, m in enumerate(e["mncs"]):
+                v.distinct.add((tuple(e["mcc"]), tuple(m), tuple(e["msins"][i])))
+            n += len(e["mncs"])
+        else:
+            n += 1
+            v.distinct.add((tuple(e["mcc"]), tuple(e["mnc"]), "wire"))
+    v.evaluations = n
+    v.exhaustive = tier == "thorough"
+    v.samples = [{"mcc": evs[7]["mcc"], "mnc": evs[7]["mncs"][0], "msin": evs[7]["msins"][0], "suci": evs[7]["sucis"][0]}]
+    v.rule = ("every MCC 000..999 x (thorough: every 2- and 3-digit MNC = 1.1 M PLMNs; quick: 16 MNCs per MCC and all 1100 MNCs for 3 MCCs) x a random "
+              "MSIN of 1..10 digits: SUCI decoded by Identity!SuciDecode, compared with Identity!SuciEncode, PLMN against Identity!PlmnOctets and the "
+              "library's PlmnIDToNas; NG Setup / user-location PLMN on the wire decoded with Per; distinct = (MCC, MNC, MSIN)")
+    v.assumptions = ["Identity.tla transcribes TS 24.501 9.11.3.4 (SUCI, PLMN) and TS 38.413 9.3.3.5"]
+    _reject_to_violation(v, rejects, lambda r, e: "%s:%s" % (e.get("ev"), r["why"].split(": ")[-1][:60]))
+
+
+def check_C17(sc, v, tier, seed, replay):
+    evs, rejects = _convert_run(sc, v, tier, seed, "convert")
+    v.evaluations = sum(256 if e["ev"] == "AmfIdRow" else 1 for e in evs)
+    for e in evs:
+        d = dict(e)
+        d.pop("id")
+        v.distinct.add(hash(canon(d)))
+    v.samples = [e for e in evs if e["ev"] in ("Tla", "Pco")][:2]
+    v.rule = ("all SST x {no SD, boundary SDs, random}; AMF ids in rows of 256 (quick 3 x 2^16, thorough 32 x 2^16 of the 2^24); IPv4 / IPv6 / dual-stack "
+              "addresses incl. boundary values, both directions; PCO lists of 0..8 containers with contents 0..255 octets, marshalled and parsed back "
+              "(parser state machine ReadingID/Length/Content in TLA+); DNN; PLMN conversion is covered by C11; distinct = distinct event")
+    v.assumptions = ["TS 24.501 9.11.2.8, TS 23.003 2.10.1, TS 38.414 5.1, TS 24.008 10.5.6.3 as transcribed in TraceConvert.tla"]
+
+    def key(r, e):
+        if e.get("ev") == "Tla":
+            return "Tla:mode%s:%s" % (e.get("mode"), r["why"][:50])
+        return "%s:%s" % (e.get("ev"), r["why"][:50])
+    _reject_to_violation(v, rejects, key)
+
+
+# ------------------------------------------------------------------------------------------------
+# C16  UE population
+# ------------------------------------------------------------------------------------------------
+def check_C16(sc, v, tier, seed, replay):
+    d = sc.specdir()
+    r = vlib.run_tlc(d, "MCUePop", open(os.path.join(vlib.SPEC, "MCUePop.cfg")).read(), name="MCUePop", timeout=600, workers=4)
+    if not r.ok:
+        raise HarnessError("MCUePop failed: " + r.error)
+    v.add_tlc([r])
+    evs, rejects = _stateless(sc, v, "rec-ue", "UePop", "ue.ndjson", seed, tier)
+    v.evaluations = sum(e["n"] for e in evs)
+    for e in evs:
+        for s in e["supis"]:
+            v.distinct.add(tuple(s))
+    v.samples = [{"imsi": e["imsi"], "n": e["n"], "first_supis": e["supis"][:2], "first_ran_ids": e["rans"][:2]} for e in evs[:2]]
+    v.rule = ("populations created by CreateUE as the UE loops do: initial IMSIs with leading zeros, 2- and 3-digit MNC, MSIN near exhaustion, "
+              "n in {1, 2, 10, 300 | 9999, 10000}; set-level invariants judged by UePop.tla; distinct = distinct SUPI")
+    v.assumptions = ["a population larger than the MSIN digits can accommodate is outside the claim"]
+    _reject_to_violation(v, rejects, lambda r, e: "Population:%s" % r["why"][:60])
